@@ -6,7 +6,7 @@
    codecsFromMediaDescription). *)
 From Coq Require Import List NArith String Bool.
 Import ListNotations.
-From Verif Require Import Common.Base Model.Fmtp Model.Codec Proofs.Codec.
+From Verif Require Import Common.Base Model.Fmtp Model.Codec Proofs.Codec Proofs.CodecHist.
 Open Scope string_scope.
 
 (* every negotiated codec was offered by the remote, in a section of its kind,
@@ -108,6 +108,136 @@ Theorem c15_rtx_same_list : forall locals rcs ep c a,
 Proof. exact chosen_apt. Qed.
 Print Assumptions c15_rtx_same_list.
 
+(* ---------- engines that already hold negotiated entries ---------- *)
+
+(* The clauses above start from a fresh engine.  An engine in use has been
+   through earlier descriptions (renegotiation) and earlier sections of the
+   same kind; updateFromRemoteDescription only ever appends to the negotiated
+   lists (addCodec), so the clauses are invariants of every history.
+   engine_grounded hist e: every negotiated entry of e is what the two passes
+   keep for a codec of a section (of its kind) in hist.  It holds of a fresh
+   engine with hist = [] and is preserved by every call, whatever the call
+   returns (an error leaves the engine with what was pushed before it). *)
+Theorem c15_hist_invariant : forall ds hist e,
+  engine_grounded hist e -> engine_grounded (hist ++ List.concat ds) (apply_history e ds).
+Proof. exact apply_history_grounded. Qed.
+Print Assumptions c15_hist_invariant.
+
+(* subset: after any sequence of remote descriptions applied to an engine whose
+   entries came from the sections hist0, every negotiated codec is an offered
+   codec (remote payload type, mime type, clock rate, channels, fmtp line) of a
+   section of its kind of hist0 or of one of the descriptions *)
+Theorem c15_hist_subset_remote : forall e0 hist0 ds k c,
+  k = KVideo \/ k = KAudio -> engine_grounded hist0 e0 ->
+  In c (negotiated_of (apply_history e0 ds) k) ->
+  exists rcs r, In (k, rcs) (hist0 ++ List.concat ds) /\ In r rcs /\ same_but_fb c r.
+Proof. exact hist_negotiated_offered. Qed.
+Print Assumptions c15_hist_subset_remote.
+
+(* locally matched, feedback = the registered codec's filtered by the offered
+   one's: same history statement (the registered lists never change) *)
+Theorem c15_hist_locally_matched_and_feedback : forall e0 hist0 ds k c,
+  k = KVideo \/ k = KAudio -> engine_grounded hist0 e0 ->
+  In c (negotiated_of (apply_history e0 ds) k) ->
+  exists rcs r lc, In (k, rcs) (hist0 ++ List.concat ds) /\ In r rcs /\ same_but_fb c r /\
+    In lc (locals_of e0 k) /\
+    c_fb c = filter (fun f => existsb (fb_eqb f) (c_fb r)) (c_fb lc) /\
+    exists t, (t = r \/ (apt_of r <> None /\ exists l', t = set_line r l')) /\
+              (exact_ok t lc = true \/ partial_ok r lc = true).
+Proof. exact hist_negotiated_matched. Qed.
+Print Assumptions c15_hist_locally_matched_and_feedback.
+
+(* from a fresh engine: the description is named *)
+Theorem c15_hist_fresh : forall video audio multi ds k c,
+  k = KVideo \/ k = KAudio ->
+  In c (negotiated_of (apply_history (new_engine video audio multi) ds) k) ->
+  exists d rcs r lc, In d ds /\ In (k, rcs) d /\ In r rcs /\ same_but_fb c r /\
+    In lc (match k with KAudio => audio | _ => video end) /\
+    c_fb c = filter (fun f => existsb (fb_eqb f) (c_fb r)) (c_fb lc) /\
+    exists t, (t = r \/ (apt_of r <> None /\ exists l', t = set_line r l')) /\
+              (exact_ok t lc = true \/ partial_ok r lc = true).
+Proof. exact hist_fresh_matched. Qed.
+Print Assumptions c15_hist_fresh.
+
+(* one call on an engine about which nothing is assumed: every entry afterwards
+   is an entry from before, or an offered and locally matched codec of this
+   description with intersected feedback *)
+Theorem c15_step_any_engine : forall e secs e' res k c,
+  k = KVideo \/ k = KAudio ->
+  update_from_remote e secs = (e', res) ->
+  In c (negotiated_of e' k) ->
+  In c (negotiated_of e k) \/
+  exists rcs r lc, In (k, rcs) secs /\ In r rcs /\ same_but_fb c r /\
+    In lc (locals_of e k) /\
+    c_fb c = filter (fun f => existsb (fb_eqb f) (c_fb r)) (c_fb lc) /\
+    exists t, (t = r \/ (apt_of r <> None /\ exists l', t = set_line r l')) /\
+              (exact_ok t lc = true \/ partial_ok r lc = true).
+Proof. exact step_negotiated_matched. Qed.
+Print Assumptions c15_step_any_engine.
+
+(* exact preferred, any engine: if an offered codec (without apt parameter) of
+   the section matches a registered codec exactly, every entry the section adds
+   to the negotiated list is an exact entry *)
+Theorem c15_exact_preferred_any_engine : forall e s e' x err k r c,
+  k = KVideo \/ k = KAudio ->
+  update_section e s = (e', x, err) -> fst s = k ->
+  In r (snd s) -> apt_of r = None -> snd (fuzzy_search r (locals_of e k)) = MExact ->
+  In c (negotiated_of e' k) -> ~ In c (negotiated_of e k) ->
+  entry_of (locals_of e k) (snd s) MExact c.
+Proof. exact section_adds_exact_only. Qed.
+Print Assumptions c15_exact_preferred_any_engine.
+
+(* RTX follows its primary after every history *)
+Theorem c15_hist_rtx_follows_primary : forall video audio multi ds k c a,
+  In c (negotiated_of (apply_history (new_engine video audio multi) ds) k) -> apt_of c = Some a ->
+  exists p, parse_uint8 a = Some p /\
+            has_pt p (negotiated_of (apply_history (new_engine video audio multi) ds) k).
+Proof. exact hist_rtx_follows_primary. Qed.
+Print Assumptions c15_hist_rtx_follows_primary.
+
+(* "The remote's payload type is used", read for the description just applied:
+     after a description is applied without error, a payload type it offers for
+     a matched codec resolves to that codec (fmtp line and intersected feedback
+     included).
+   False on the faithful model: addCodec returns no error when the payload type
+   is already negotiated for an entry with the same mime type, clock rate and
+   channels, and keeps that entry -- its fmtp line and feedback are not
+   compared.  Witness (replayed on a real MediaEngine, finding
+   renegotiated-pt-keeps-earlier-parameters): H264 packetization-mode=1 under
+   payload type 102, then packetization-mode=0 with less feedback under 102. *)
+Theorem c15_current_binding_refuted :
+  exists video d1 d2 e1 e2 rcs ep c d,
+    update_from_remote (new_engine video [] true) d1 = (e1, Ok tt) /\
+    update_from_remote e1 d2 = (e2, Ok tt) /\
+    d2 = [(KVideo, rcs)] /\ match_passes video rcs = Ok ep /\ In c (chosen ep) /\
+    get_codec_by_payload e2 (c_pt c) = Ok (d, KVideo) /\
+    c_line d <> c_line c /\ c_fb d <> c_fb c.
+Proof. exact stale_binding_witness. Qed.
+Print Assumptions c15_current_binding_refuted.
+
+(* what does hold, for any engine: a section that reaches the codec part of the
+   loop (first of its kind, or multi-codec negotiation) and is applied without
+   error leaves every payload type of its chosen list bound to an entry with the
+   chosen codec's mime type (ignoring case), clock rate and channels (modulo the
+   0 defaults); to the chosen codec itself when the payload type was not
+   negotiated before *)
+Theorem c15_current_binding_partial : forall e k rcs e' x ep c,
+  update_section e (k, rcs) = (e', x, None) -> section_negotiated e k = true ->
+  match_passes (locals_of e k) rcs = Ok ep -> In c (chosen ep) ->
+  exists d, find (pt_is (c_pt c)) (negotiated_of e' k) = Some d /\
+    same_codec_for_add d c = true /\
+    (find (pt_is (c_pt c)) (negotiated_of e k) = None -> d = c).
+Proof. exact section_binds_pt. Qed.
+Print Assumptions c15_current_binding_partial.
+
+(* a negotiated payload type is never rebound: not by the rest of the
+   description, not by any later description *)
+Theorem c15_binding_stable : forall ds e k p d,
+  find (pt_is p) (negotiated_of e k) = Some d ->
+  find (pt_is p) (negotiated_of (apply_history e ds) k) = Some d.
+Proof. exact apply_history_find_stable. Qed.
+Print Assumptions c15_binding_stable.
+
 (* ---------- the premises are satisfiable on non-trivial values ---------- *)
 
 Definition ex_vp8 := mkCodec "video/VP8" 90000 0 "" [("nack", ""); ("nack", "pli"); ("goog-remb", "")] 96.
@@ -132,3 +262,16 @@ Example c15_example_partial_only :
                    [(KVideo, [mkCodec "video/H264" 90000 0 "packetization-mode=1;profile-level-id=640032" [("nack", "")] 120])] in
   e_nvideo e = [mkCodec "video/H264" 90000 0 "packetization-mode=1;profile-level-id=640032" [("nack", "")] 120].
 Proof. vm_compute. reflexivity. Qed.
+
+(* the history premise on a non-trivial value: the engine after the example
+   negotiation is grounded in that description, and a renegotiation that offers
+   VP8 under another payload type adds to it *)
+Example c15_example_grounded :
+  let e1 := apply_history (new_engine [ex_vp8; ex_rtx; ex_h264] [] true) [[(KVideo, ex_offer)]] in
+  engine_grounded [(KVideo, ex_offer)] e1 /\
+  map c_pt (e_nvideo (apply_history e1 [[(KVideo, [mkCodec "video/VP8" 90000 0 "" [] 110])]])) = [100%N; 101%N; 110%N].
+Proof.
+  split.
+  - exact (apply_history_grounded [[(KVideo, ex_offer)]] [] _ (engine_grounded_fresh _ _ _)).
+  - vm_compute. reflexivity.
+Qed.
